@@ -9,6 +9,7 @@ import json, os
 from vf import core
 from vf import codec_gen as G
 from vf import codec_run as R
+from vf import marshal_validation as MV
 
 META = {
     'technique': 'Coq proof by structural induction over CQL type trees on an executable model of cqltypes '
@@ -25,25 +26,16 @@ META = {
 
 def oracle(ctx, c):
     """the statement on the implementation: whatever the driver encoded must decode to the normal form of the original"""
-    if 'bs' in c or c['enc'] is None:
-        return
-    t, v = c['t'], c['v']
-    if not (R.wf_type(t) and R.py_repr(t, v)):
-        ctx.count('outside_statement', 'wrapper-over-text / empty tuple / timestamp beyond datetime')
-        return
-    want = G.norm(t, v)
-    got = G.norm(t, c['dec']) if c['dec'] is not None else None
-    if got == want:
-        return
-    where = 'decode-raises.' + G.kind_of(t) if got is None else R.first_diff(t, want, got)
-    ctx.violation('roundtrip.' + str(where),
-                  'decode(encode(x)) != x for %s at protocol v%d: value %s came back as %s%s'
-                  % (json.dumps(t), c['pv'], json.dumps(v)[:200], json.dumps(c['dec'])[:200], ' (%s)' % c['dec_exc'] if c['dec_exc'] else ''),
-                  case={'pv': c['pv'], 't': t, 'v': v}, expected=want, actual=c['dec'] if c['dec'] is not None else c['dec_exc'],
-                  theorem='C01_roundtrip')
+    R.decode_oracle(ctx, c, 'roundtrip', 'C01_roundtrip', 'decode(encode(x)) != x')
+
+
+def gen(ctx):
+    # (T) cassandra/marshal.py regenerated into coq/Gen/MarshalGen.v; MarshalBridge.v proves it equal to MarshalModel.v
+    return MV.gen(ctx, parts=('marshal',))
 
 
 def run(ctx):
+    gen(ctx)
     ok = ctx.prove('Props/C01.v')
     if ctx.tier == 'thorough' and ok:
         ctx.coqchk('Props/C01.v')
@@ -56,6 +48,11 @@ def run(ctx):
     ctx.exhaustive = False
     for c in cases:
         oracle(ctx, c)
+    R.marshal_impl_oracle(ctx, ctx.rng, 40 if quick else 1000)
+    try:
+        MV.validate(ctx, parts=('marshal',))
+    except Exception as e:      # the T-layer validation must not hide the verdict of this check
+        ctx.proof_broken.append(('T-marshal validation', repr(e)[-400:]))
     try:
         exprs = R.model_exprs(cases)
         bad = ctx.coq_filter(R.MODEL_REQ, '(fun b : bool => b)', exprs, shard=200)
